@@ -163,11 +163,12 @@ def handle : List String → String
       | some loss, some prev, some lagPrev, some gd, some ad =>
         if pl.length ≠ 4 ∨ gd.length ≠ 4 ∨ ad.length ≠ 4 ∨ (nb ≠ 2 ∧ nb ≠ 4) ∨ (fs ≠ 8 ∧ fs ≠ 12 ∧ fs ≠ 16) then "bad-op"
         else
-          let r := Opus.SilkSynthIdx.coreAccesses
+          let x : Opus.SilkSynthIdx.CoreIn :=
             { fsKHz := fs, nbSubfr := nb, signalType := sig, quantOffsetType := qoff, interp := interp ≠ 0,
               pitchL := pl, lossCnt := loss, prevSignalType := prev, lagPrev := lagPrev, gainDiff := gd, adjNe := ad }
+          let r := Opus.SilkSynthIdx.coreAccesses x
           if r.2 then "ABORT"
-          else s!"OK {Opus.SilkSynthIdx.extentsStr r.1 coreTieArrays} alloc\{{Opus.SilkSynthIdx.allocStr (Opus.SilkSynthIdx.cfgOf fs nb) [.sLTP, .sLTP_Q15, .res_Q14, .sLPC_Q14]}}"
+          else s!"OK {Opus.SilkSynthIdx.extentsStr r.1 coreTieArrays} alloc\{{Opus.SilkSynthIdx.allocStr (Opus.SilkSynthIdx.cfgOf fs nb) [.sLTP, .sLTP_Q15, .res_Q14, .sLPC_Q14]}} init\{sLTP_Q15={if Opus.SilkSynthIdx.coreInitOk x then "ok" else "bad"}}"
       | _, _, _, _, _ => "bad-op"
     | _, _, _, _, _, _ => "bad-op"
   | ["synthparams", fs, nb, sig, per, ltp, scale, interp, ffar, loss] =>
@@ -219,7 +220,7 @@ def handle : List String → String
           let t := r.2
           let g := match Opus.SilkSynthIdx.extent r.1.glue .xq false with
             | none => "-" | some (lo, hi) => s!"{lo}..{hi}"
-          s!"OK core\{{e r.1.core coreTieArrays}} plc\{{e r.1.plc plcTieArrays}} top\{{e r.1.top topTieArrays}} cng\{{e r.1.cng cngTieArrays}} glue\{xq:r={g},w=ok} alloc\{{Opus.SilkSynthIdx.allocStr st.cfg (if fi.lost then [.sLTP, .sLTP_Q14, .exc_buf, .cngSig] else [.pulses, .sLTP, .sLTP_Q15, .res_Q14, .sLPC_Q14])}} st={t.fsKHz} {t.nbSubfr} {t.lossCnt} {t.prevSignalType} {t.lagPrev} {b t.firstFrameAfterReset} {t.plcFs} {t.pitchLQ8} {t.plcNb} {t.plcSubfr} {b t.lastFrameLost} {t.plcSeed} {t.cngFs} {t.cngSeed}"
+          s!"OK core\{{e r.1.core coreTieArrays}} plc\{{e r.1.plc plcTieArrays}} top\{{e r.1.top topTieArrays}} cng\{{e r.1.cng cngTieArrays}} glue\{xq:r={g},w=ok} alloc\{{Opus.SilkSynthIdx.allocStr st.cfg (if fi.lost then [.sLTP, .sLTP_Q14, .exc_buf, .cngSig] else [.pulses, .sLTP, .sLTP_Q15, .res_Q14, .sLPC_Q14])}} init\{{if fi.lost then "sLTP_Q14" else "sLTP_Q15"}={if Opus.SilkSynthIdx.frameInitOk st fi then "ok" else "bad"}} st={t.fsKHz} {t.nbSubfr} {t.lossCnt} {t.prevSignalType} {t.lagPrev} {b t.firstFrameAfterReset} {t.plcFs} {t.pitchLQ8} {t.plcNb} {t.plcSubfr} {b t.lastFrameLost} {t.plcSeed} {t.cngFs} {t.cngSeed}"
     | _, _, _, _, _, _, _ => "bad-op"
   | _ => "bad-op"
 
